@@ -4,6 +4,7 @@ Executable form of C14 applied to (input, REAL output) pairs. Uses only Spec fun
 never the model.
 -/
 import SafeHtml.Spec.CharRef
+import SafeHtml.Spec.Policy
 import SafeHtml.Spec.UrlComponents
 namespace SafeHtml.Oracle.C14
 open SafeHtml SafeHtml.Spec SafeHtml.Spec.UrlComp
@@ -147,8 +148,8 @@ def closing (elem : Bytes) : Bytes :=
   if elem == [115, 99, 114, 105, 112, 116] then [34, 62, 60, 47, 115, 99, 114, 105, 112, 116, 62] else [34, 62]
 
 /-- real: `ok out` / `perr` (template rejected) / `xerr` (execution error) -/
-def urlattr (elem attr p w : Bytes) (real : List String) : String :=
-  match ctxOf elem attr with
+def urlattrCtx (c0 : Option Ctx) (elem attr p w : Bytes) (real : List String) : String :=
+  match c0 with
   | none => "fail:unknown-template"
   | some ctx =>
   let accepted : String := match ctx with
@@ -194,6 +195,31 @@ def urlattr (elem attr p w : Bytes) (real : List String) : String :=
       else if dotDotSegments bd > dotDotSegments bp then "fail:tru-new-dotdot-segment"
       else "pass"
   | _ => "fail:unparsable-real-result"
+
+def urlattr (elem attr p w : Bytes) (real : List String) : String := urlattrCtx (ctxOf elem attr) elem attr p w real
+
+/-- `<link [rel="R"] href="P{{.}}">` executed with the string `w`: the href is a TrustedResourceURL context unless
+    the REVIEWED policy relaxes it for this rel; the rel attribute is removed from the real output and the
+    remaining `<link href="…">` is judged like the fixed templates. -/
+def linkattr (rel p w : Bytes) (real : List String) : String :=
+  let ctx : Ctx := match Spec.Policy.reviewedAttr [108, 105, 110, 107] [104, 114, 101, 102] (rel.map asciiLower) with
+    | some (.known .TrustedResourceURL) => .tru
+    | some (.known .TrustedResourceURLOrURL) => .url
+    | _ => .other
+  let relAttr : Bytes := [32, 114, 101, 108, 61, 34] ++ rel ++ [34]      -- ` rel="R"`
+  let real' : List String := match real with
+    | ["ok", h] =>
+      match unhex h with
+      | some out =>
+        if rel.isEmpty then real
+        else
+          let head : Bytes := [60, 108, 105, 110, 107]                  -- `<link`
+          if (head ++ relAttr).isPrefixOf out then ["ok", hexOf (head ++ out.drop (head ++ relAttr).length)] else ["ok", h]
+      | none => real
+    | ["err:exec", _] => ["xerr"]
+    | "err:exec" :: _ => ["xerr"]
+    | _ => if (real.headD "").startsWith "err:analysis" then ["perr"] else real
+  urlattrCtx (some ctx) [108, 105, 110, 107] [104, 114, 101, 102] p w real'
 
 /-- `<elem attr="P{{.A}}M{{.B}}">`: two actions in one attribute value. Only the claims that do not need the
     position of the data inside the value: no quote, scheme fixed by the first static prefix, and (TrustedResourceURL)
